@@ -101,6 +101,7 @@ def strategy_(draw, tier):
         g = draw(gen_graph.rgfa(max_chroms=1, max_elements=3, max_ln=12, cycles=True))
     for d in g["nodes"].values():
         d["seq"] = d["seq"].replace("N", "A")
+    rc.soft_mask(draw, g)
     lm = models.LinkModel(g["links"])
     closed = gen_gaf.revisit_walks(g, lm) if not long_class else []
     lines, fasta = [], []
@@ -289,6 +290,8 @@ def run_case(case):
         cl.add("real_processes")
     if any(len(l) in (3, 7, 60) for l in case["fasta"].split("\n")[:-1]) and "\n".join(case["fasta"].split("\n")[1:3]).count(">") == 0:
         cl.add("wrapped_fasta")
+    if any(r != r.upper() for r in reads.values()):
+        cl.add("lower_case_read_bases")
     if any(l.startswith("L\t") and l.split("\t")[5] != "0M" for l in case["gfa"].split("\n")):
         cl.add("links_with_nonzero_overlap")
     return core.Result(nontrivial, sorted(cl))
